@@ -330,7 +330,10 @@ func TestC03(t *testing.T) {
 		if rc.Position == "" { // behavioural case
 			var bc behCase
 			loadRegress(t, path, &bc)
+			// a case stored by a part that counts a non-compiling output as the violation is replayed the same way
+			behCompileErrIsViolation = strings.HasPrefix(storedKey(path), "compile:")
 			behBatch(t, bc, c03NonTrivial, c02Check, nil)
+			behCompileErrIsViolation = false
 			return
 		}
 		c03Eval(t, rc, &q)
